@@ -63,6 +63,20 @@ def run(ctx, progs):
     crates = set(base.facts.get("crates", []))
     ctx.check("std" not in crates and "alloc" not in crates, "NOSTD", "*", "crate graph of the no-alloc build", "Cargo.toml",
               "the no-alloc build links %s" % sorted(crates & {"std", "alloc"}), "linked crates: %s" % sorted(crates), "nostd")
+    # every configuration without the `std` feature is a #![no_std] crate: `std` is neither named nor linked; only the
+    # configurations with the `alloc` feature name / link `alloc`
+    for cfg, prog in progs.items():
+        feats = " ".join(facts.BUILD_MATRIX.get(cfg, ([], ""))[0])
+        if "--no-default-features" not in feats or "std" in [x for part in feats.split() for x in part.split(",")]:
+            continue
+        cr, ex = set(prog.facts.get("crates", [])), set(prog.facts.get("extern_crates", []))
+        ctx.check("std" not in cr and "std" not in ex, "NOSTD", "*", "no std without the `std` feature", "src/lib.rs",
+                  "configuration `%s` (no `std` feature) links or names `std` (extern crates %s): the crate is not #![no_std] there"
+                  % (cfg, sorted(ex)), "crate graph without std: %s" % sorted(cr)[:6], cfg)
+        has_alloc = "alloc" in [x for part in feats.split() for x in part.split(",")]
+        ctx.check(has_alloc or ("alloc" not in cr and "alloc" not in ex), "NOSTD", "*", "no alloc without the `alloc` feature", "src/lib.rs",
+                  "configuration `%s` (no `alloc` feature) links or names `alloc`: a final binary without a global allocator is rejected"
+                  % cfg, "crate graph: %s" % sorted(cr)[:6], cfg)
     for cfg, prog in progs.items():
         ctx.check(prog.facts.get("foreign_mods", 0) == 0, "NOSTD", "*", "no extern blocks", "?",
                   "the crate declares foreign items (extern blocks): a side door to an allocator", "0 foreign modules", cfg, nontrivial=False)
